@@ -190,6 +190,7 @@ RunDefers(ds, w) == IF ds = <<>> \/ Panicked(w) THEN w ELSE RunDefers(Tail(ds), 
 \*   parenyield (Yield(a))                                                          (a parenthesised yield statement)
 \*   rparrdefer for _, v := range &uarr { defer r.E(id, v, 0) }                     (defer in a loop the rewriter leaves native)
 \*   rparrbrk / rparrcnt   for k, v := range &uarr { if r.T(id+1) { break | continue }; r.E(id+2, k, v) }   (no yield: left native)
+\*   fordefer  for r.T(id) { defer r.E(id+1, a, b) }                                (defer in a loop without any yield)
 \*   elifinit  if r.T(id) { r.E(id+1, a, b) } else if Yield(a); r.T(id+2) { r.E(id+3, a, b) }
 \*   rtparam   for _, v := range ts { Yield(v) }   with ts of a type-parameter type ~[]int holding 10, 20, 30
 \* Negative controls, inside a closure nested in the generator (no yield inside; must be accepted):
@@ -226,6 +227,7 @@ Desugar(s) ==
     [] s.u = "rtparam" -> <<UY(ULit(10)), UY(ULit(20)), UY(ULit(30))>>
     [] s.u = "parenyield" -> <<UY(UVar("a"))>>
     [] s.u = "rparrdefer" -> <<[k |-> "deferv", id |-> id, x |-> 10], [k |-> "deferv", id |-> id, x |-> 20], [k |-> "deferv", id |-> id, x |-> 30]>>
+    [] s.u = "fordefer" -> <<UFor("", id, <<[k |-> "defer", id |-> id + 1]>>)>>
     [] s.u = "rparrbrk" -> <<URange("parray", id, <<UIf(id + 1, <<[k |-> "break"]>>, <<>>), [k |-> "effkv", id |-> id + 2]>>)>>
     [] s.u = "rparrcnt" -> <<URange("parray", id, <<UIf(id + 1, <<[k |-> "continue"]>>, <<>>), [k |-> "effkv", id |-> id + 2]>>)>>
     [] s.u = "elifinit" -> <<UIf(id, <<UEff(id + 1)>>, <<UY(UVar("a")), UIf(id + 2, <<UEff(id + 3)>>, <<>>)>>)>>
